@@ -166,6 +166,11 @@ fn load_graph(
             )
             .into());
         }
+        // A graph input may also be listed as an output. Don't create a second
+        // node for it, as that would shadow the input node and its metadata.
+        if graph.get_node_id(name).is_some() {
+            continue;
+        }
         add_value(&mut graph, name, value);
     }
 
